@@ -414,6 +414,8 @@ def _await_descriptor_upload(tor_protocol, onion, progress, await_all_uploads):
     attempted_uploads = set()
     confirmed_uploads = set()
     failed_uploads = set()
+    # directories whose latest upload attempt has no result yet
+    pending_uploads = set()
     uploaded = defer.Deferred()
     await_all = False if await_all_uploads is None else await_all_uploads
 
@@ -450,6 +452,8 @@ def _await_descriptor_upload(tor_protocol, onion, progress, await_all_uploads):
         if subtype == 'UPLOAD':
             if hostname_matches('{}.onion'.format(args[1])):
                 attempted_uploads.add(args[3])
+                if args[3] not in confirmed_uploads:
+                    pending_uploads.add(args[3])
                 translate_progress(
                     "wait_descriptor",
                     "Upload to {} started".format(args[3])
@@ -465,6 +469,7 @@ def _await_descriptor_upload(tor_protocol, onion, progress, await_all_uploads):
             # (i.e. instead of matching to "attempted_uploads")
             if args[3] in attempted_uploads:
                 confirmed_uploads.add(args[3])
+                pending_uploads.discard(args[3])
                 log.msg("Uploaded '{}' to '{}'".format(args[1], args[3]))
                 translate_progress(
                     "wait_descriptor",
@@ -472,7 +477,7 @@ def _await_descriptor_upload(tor_protocol, onion, progress, await_all_uploads):
                 )
                 if not uploaded.called:
                     if await_all:
-                        if (len(failed_uploads) + len(confirmed_uploads)) == len(attempted_uploads):
+                        if not pending_uploads:
                             uploaded.callback(onion)
                     else:
                         uploaded.callback(onion)
@@ -480,20 +485,20 @@ def _await_descriptor_upload(tor_protocol, onion, progress, await_all_uploads):
         elif subtype == 'FAILED':
             if args[3] in attempted_uploads and hostname_matches('{}.onion'.format(args[1])):
                 failed_uploads.add(args[3])
+                pending_uploads.discard(args[3])
                 translate_progress(
                     "wait_descriptor",
                     "Failed upload to {}".format(args[3])
                 )
                 if uploaded.called:
                     return
-                if failed_uploads == attempted_uploads:
+                if not pending_uploads and not confirmed_uploads:
                     msg = "Failed to upload '{}' to: {}".format(
                         args[1],
                         ', '.join(failed_uploads),
                     )
                     uploaded.errback(RuntimeError(msg))
-                elif await_all and confirmed_uploads and \
-                        (len(failed_uploads) + len(confirmed_uploads)) == len(attempted_uploads):
+                elif await_all and confirmed_uploads and not pending_uploads:
                     uploaded.callback(onion)
 
     # the first 'yield' should be the add_event_listener so that a
